@@ -89,9 +89,18 @@ def job(args):
         for oi, o in enumerate(opts):
             path = files[o["file"]]
             sig = {"file": o["file"], "columns": o["columns"], "categories": o["categories"], "index": o["index"],
-                   "pandas_nulls": bool(o["pandas_nulls"]), "dtypes": o["dtypes"]}
+                   "pandas_nulls": bool(o["pandas_nulls"]), "dtypes": o["dtypes"], "handle": o["handle"]}
             try:
                 pf = fp.ParquetFile(path, pandas_nulls=bool(o["pandas_nulls"]))
+                if o["handle"] == "first":
+                    pf = pf[0:1]
+                elif o["handle"] == "rest":
+                    pf = pf[1:]
+                elif o["handle"] == "empty":
+                    pf = pf[0:0]
+                elif o["handle"] == "pickled":
+                    import pickle
+                    pf = pickle.loads(pickle.dumps(pf))
                 allcols = list(pf.columns) + list(pf.cats)
                 catcol = "k" if "k" in pf.columns else ("txt" if "txt" in pf.columns else None)
                 if o["columns"] == "all":
@@ -170,6 +179,110 @@ def job(args):
     return out
 
 
+# ---------------------------------------------------------------------------------------------------------
+# part B: the dtype table (spec/DtypeTable.tla) - one single-column file from the independent encoder per case
+# ---------------------------------------------------------------------------------------------------------
+
+def norm_dtype(dt):
+    import numpy as np
+    s = str(dt)
+    try:
+        if not isinstance(dt, str) and not hasattr(dt, "name"):
+            s = str(np.dtype(type(dt)))          # the code announces np.float64() (an instance) for "float64"
+        elif isinstance(dt, str):
+            s = str(np.dtype(dt))        # 'M8[ns]' -> datetime64[ns]; extension names (Int64, boolean) are not numpy dtypes: kept
+    except Exception:
+        pass
+    if s in ("object", "str", "string", "<U0"):
+        return "object"
+    return s.replace("<M8", "datetime64").replace("<m8", "timedelta64").lstrip("<|")
+
+
+def table_file(case):
+    pt, ct, lts = case["pt"], case["ct"], case["lts"]
+    node = {"name": "x", "type": pt, "repetition": case["rep"], "converted_type": None if ct == "none" else ct}
+    if pt == "FIXED_LEN_BYTE_ARRAY":
+        node["type_length"] = 3
+    if ct == "DECIMAL":
+        node["scale"], node["precision"] = 1, 5
+    if lts != "none":
+        node["logical_type"] = {"TIMESTAMP": {"isAdjustedToUTC": False,
+                                              "unit": {{"ms": "MILLIS", "us": "MICROS", "ns": "NANOS"}[lts]: {}}}}
+    base = {"INT32": [1, 2, 3], "INT64": [1000, 2000, 3000],        # whole seconds in every unit down to ms
+            "FLOAT": [0.5, 1.5, 2.5], "DOUBLE": [0.5, 1.5, 2.5],
+            "BOOLEAN": [True, False, True], "INT96": [bytes(8) + (2440588 + i).to_bytes(4, "little") for i in range(3)],
+            "BYTE_ARRAY": [b"\x01\x02", b"\x03", b"\x04\x05"] if ct == "DECIMAL" else [b'"a"', b'"bc"', b'"d"'],
+            "FIXED_LEN_BYTE_ARRAY": [b"\x00\x01\x02", b"\x00\x00\x07", b"\x00\x02\x00"]}[pt]
+    rgs = []
+    for g in range(2):
+        cells = list(base)
+        if case["stat"] == "some" and g == 1:
+            cells[1] = None
+        nn = [v for v in cells if v is not None]
+        page = {"version": 1, "encoding": "PLAIN", "values": nn,
+                "def_levels": [0 if v is None else 1 for v in cells] if case["rep"] == "OPTIONAL" else None}
+        stats = None if case["stat"] == "absent" else {"null_count": sum(v is None for v in cells)}
+        rgs.append({"num_rows": 3, "columns": [{"path": ["x"], "codec": "UNCOMPRESSED", "dictionary": None, "pages": [page],
+                                                "statistics": stats}]})
+    kv = {}
+    if case["md"] != "absent":
+        nt = case["mdtype"]
+        ptype = ("datetime" if nt.startswith("datetime") else "bytes" if nt == "object" and ct not in ("UTF8", "JSON")
+                 else "unicode" if nt == "object" else nt.lower() if nt[:1].isupper() and case["md"] != "nullable" else nt)
+        kv["pandas"] = json.dumps({"columns": [{"name": "x", "field_name": "x", "pandas_type": ptype, "numpy_type": nt,
+                                                "metadata": None}],
+                                   "index_columns": [], "column_indexes": [], "pandas_version": "2.0.0",
+                                   "creator": {"library": "other", "version": "1"}, "partition_columns": []})
+    return PW.build_file({"created_by": "parquet-mr version 1.12.0", "kv": kv, "schema": [node], "row_groups": rgs})
+
+
+def table_job(args):
+    jid, cases = args
+    fp = use_repo()
+    out = {"jid": jid, "viol": [], "drift": [], "evals": 0, "raised": 0, "machinery": []}
+    for ci, case in enumerate(cases):
+        sig = {"physical": case["pt"], "converted": case["ct"], "logical_unit": case["lts"], "pandas_metadata": case["md"],
+               "statistics": case["stat"], "pandas_nulls": bool(case["pandas_nulls"])}
+        try:
+            data = table_file(case)
+        except Exception as e:  # noqa
+            out["machinery"].append("%r: %r" % (sig, e))
+            continue
+        try:
+            pf = fp.ParquetFile(io.BytesIO(data), pandas_nulls=bool(case["pandas_nulls"]))
+            ann = norm_dtype(pf._dtypes()["x"])
+            ann2 = norm_dtype(pf.dtypes["x"])
+        except BaseException as e:  # noqa
+            out["raised"] += 1
+            out.setdefault("raised_sigs", []).append("announce %s/%s/%s md=%s: %s" % (case["pt"], case["ct"], case["lts"], case["md"], type(e).__name__))
+            continue
+        out["evals"] += 1
+        if ann != ann2:
+            out["viol"].append((dict(sig, what="dtypes attribute and _dtypes() announce different dtypes"), ci))
+        try:
+            real = norm_dtype(pf.to_pandas()["x"].dtype)
+        except BaseException as e:  # noqa
+            out["raised"] += 1           # decoding is C03's concern; nothing was read, nothing to compare
+            out.setdefault("raised_sigs", []).append("read %s/%s/%s md=%s stat=%s nulls=%s: %s" % (
+                case["pt"], case["ct"], case["lts"], case["md"], case["stat"], case["pandas_nulls"], type(e).__name__))
+            continue
+        if real != ann:
+            out["viol"].append((dict(sig, what="dtype read differs from the dtype announced from metadata", announced=ann, read=real), ci))
+            continue
+        try:
+            empty = norm_dtype(pf[0:0].to_pandas()["x"].dtype)
+            if empty != ann:
+                out["viol"].append((dict(sig, what="dtype of a zero-row selection differs from the announced dtype",
+                                         announced=ann, read=empty), ci))
+                continue
+        except BaseException as e:  # noqa
+            out["viol"].append((dict(sig, what="zero-row selection cannot be read", exc=type(e).__name__), ci))
+            continue
+        if ann != case["announce"]:
+            out["drift"].append({"case": sig, "spec": case["announce"], "code": ann})
+    return out
+
+
 def run(tier, seed):
     t = Timer()
     ev = Evidence(PID, tier, seed, "model_checking")
@@ -187,7 +300,8 @@ def _run(ev, work, thorough):
     cfg = os.path.join(work, "pred.cfg")
     T.write_cfg(cfg, spec="Spec", constants={"FileClasses": "<- FilesAll", "ColumnOpts": "<- ColsAllOpts",
                                              "CategoryOpts": "<- CatsAll", "IndexOpts": "<- IdxAll",
-                                             "NullOpts": "<- NullsBoth", "DtypeOpts": "<- DtypesBoth"},
+                                             "NullOpts": "<- NullsBoth", "DtypeOpts": "<- DtypesBoth",
+                                             "HandleOpts": "<- HandlesAll"},
                 invariants=["Export"], check_deadlock=False)
     res = T.run_tlc("Predict", cfg, work, timeout=1200, coverage=True)
     opts = res.printed_json()
@@ -209,10 +323,52 @@ def _run(ev, work, thorough):
         ev.evaluations += r["evals"]
         for sig, oi in r["viol"]:
             verd.add(sig, {"options": j[1][oi]})
+    # ---- part B: dtype table ----
+    cfg = os.path.join(work, "dt.cfg")
+    T.write_cfg(cfg, spec="Spec", constants={"Physicals": "<- PhysAll", "Converteds": "<- ConvAll", "LogicalUnits": "<- UnitsAll",
+                                             "Repetitions": "<- RepsBoth", "MdKinds": "<- MdAll", "StatKinds": "<- StatsAll",
+                                             "NullOpts": "<- NullsBoth"},
+                invariants=["NullsRepresentable", "OptionOnlyMattersForIntLike", "Export"], check_deadlock=False)
+    tres = T.run_tlc("DtypeTableMC", cfg, work, timeout=1200)
+    table = tres.printed_json()
+    if not tres.completed or not table:
+        raise T.TLCError("DtypeTable failed: %s\n%s" % (tres.violated, tres.out[-2000:]))
+    ev.add_tlc("DtypeTable: schema element x pandas-metadata kind x statistics x pandas_nulls, with the announced dtype", tres,
+               cases=len(table))
+    tjobs = [(i, table[i::16]) for i in range(16) if table[i::16]]
+    drift, raised, rs = [], 0, {}
+    for j, r in zip(tjobs, pmap(table_job, tjobs, job_timeout=600)):
+        if isinstance(r, Crashed):
+            verd.add({"what": "interpreter crashed or hung (dtype table)"}, {"first": j[1][0]})
+            continue
+        if r["machinery"]:
+            raise RuntimeError("independent encoder failed: %s" % r["machinery"][:3])
+        ev.evaluations += r["evals"]
+        raised += r["raised"]
+        for x in r.get("raised_sigs", []):
+            rs[x] = rs.get(x, 0) + 1
+        drift.extend(r["drift"])
+        for sig, ci in r["viol"]:
+            verd.add(sig, {"case": j[1][ci]})
+    for c in table:
+        ev.nontrivial.add(json.dumps(c, sort_keys=True))
+    ev.extra["dtype_table_cases"] = len(table)
+    ev.extra["dtype_table_reads_refused"] = raised
+    ev.extra["dtype_table_refusals"] = rs
+    if drift:
+        groups = {}
+        for dct in drift:
+            key = json.dumps({"spec": dct["spec"], "code": dct["code"], "physical": dct["case"]["physical"],
+                              "converted": dct["case"]["converted"], "md": dct["case"]["pandas_metadata"]}, sort_keys=True)
+            groups[key] = groups.get(key, 0) + 1
+        ev.drift.append({"what": "announced dtype differs from spec/DtypeTable.tla's transcription (contract holds)",
+                         "cases": len(drift), "groups": [dict(json.loads(k), n=v) for k, v in sorted(groups.items())][:40]})
+        print("DRIFT: %d dtype-table cases where the code announces another dtype than the transcription (contract holds)" % len(drift))
     for o in opts:
         ev.nontrivial.add(json.dumps(o, sort_keys=True))
-    ev.rule = ("every (file class, columns, categories, index, pandas_nulls, dtypes) tuple TLC enumerates; non-trivial = "
-               "distinct tuples")
+    ev.rule = ("every (file class, handle, columns, categories, index, pandas_nulls, dtypes) tuple TLC enumerates, and every "
+               "case of the dtype table (schema element x pandas-metadata kind x statistics kind x pandas_nulls) with the "
+               "dtype spec/DtypeTable.tla announces for it; non-trivial = distinct tuples / cases")
     ev.exhaustive = True
     ev.sample(opts[0])
     n = verd.report(ev)
